@@ -5,34 +5,35 @@ import SLModel.Lemmas.HttpWrites
 Model: `Core/HttpWrites` — every request of the HTTP service denotes a list of library calls
 (`denote`) through a fresh writer handle, executed on the states of `Core/Contents`
 (`mechRun`: segments, tombstones, cached live maps, the shared append-only log; `specRun`: the
-committed map and the log).  `repaired = false` is the code as it exists (`writer.rollback()`
-after a failing `/add` or `/bulk` truncates the **whole** log); `repaired = true` is the
-denotation with a request-local rollback.
+committed map and the log).  `repaired = true` is the code as it exists (/repo commit 69e89dd:
+`/add` and `/bulk` call `IndexWriter::add_documents`, which validates the whole batch before it
+appends anything); `repaired = false` is the legacy handler (`add_document` per document,
+`writer.rollback()` = truncation of the **whole** log after the first rejected one).
 
 All statements quantify over **every** request sequence, every acceptance rule of the library
 (`Rules`: which documents `add_document` accepts and under which id, which ids `validate_ids`
 accepts), every document type with an idempotent stored projection.  What a reader sees is
 `copies segs i` (the stored versions of id `i` among the live documents of all segments).
 
-Tie to the code: `Drv/C23` runs `mechTrace` (the same `mechServe`/`denote`) on the request
-sequences the harness sends to the real server and the harness compares, after every request,
-the response class, the pending operations of the log file and the contents returned by
+Tie to the code: `Drv/C23` runs `mechTrace` (the same `mechServe`/`denote`, `repaired = true`) on
+the request sequences the harness sends to the real server and the harness compares, after every
+request, the response class, the pending operations of the log file and the contents returned by
 `/search`.
 
 ## Result
 
-* For the **repaired** denotation the property holds in full: `acked_stay_queued`,
-  `rejected_contributes_nothing`, `rejected_leaves_state`, `commit_applies_in_order`.
-* For the **code as it exists** it is false: `acked_dropped_witness` (by `decide`),
-  `rollback_drops_everything` (the mechanism, for all inputs).  What does hold:
-  `acked_stay_queued_partial` / `commit_applies_in_order_partial` (sequences in which no request
-  reaches `rollback()` while operations of earlier requests are pending), and for all sequences
-  `acked_appended`, `rejected_queues_nothing_own`, `commit_applies_pending`,
+* For the **code as it exists** the property holds in full, without hypotheses on the request
+  sequence: `acked_stay_queued`, `rejected_contributes_nothing`, `rejected_leaves_state`,
+  `rejected_batch_appends_nothing`, `commit_applies_in_order`, `commit_last_acked_wins`; and
+  (both denotations) `acked_appended`, `rejected_queues_nothing_own`, `commit_applies_pending`,
   `uncommitted_invisible`.
+* **Legacy** (kernel-checked documentation of the original defect, fixed in 69e89dd):
+  `legacy_acked_dropped_witness`, `legacy_acked_dropped_witness_bulk` (by `decide`),
+  `legacy_rollback_drops_everything` (the mechanism, for all inputs); what held for the legacy
+  handler only under the hypothesis `noLateRollback` (no request reaches `rollback()` while
+  operations of earlier requests are pending): `legacy_acked_stay_queued_partial`,
+  `legacy_commit_applies_in_order_partial`.  The full statement that failed for it:
 
-Full statement that fails for `repaired = false` (kept here as required):
-
-    theorem acked_stay_queued_current … :
       (mechRun false ru cfg (pre ++ post)).log.pending = post.flatMap (ackedOps ru)
 -/
 set_option linter.unusedSectionVars false
@@ -130,7 +131,7 @@ theorem queued_facts (ru : Rules ι δ) (r : Req ι δ) (k : Nat) (h : resp ru r
   | compact => simp [resp] at h
   | search => simp [resp] at h
 
-/-! ## the repaired denotation: the property in full -/
+/-! ## the code as it exists (`repaired = true`): the property in full -/
 
 /-- **acked_stay_queued**: after any request sequence the log's pending operations are exactly
 the concatenation, in order, of the documents/ids of all acknowledged write requests since the
@@ -151,7 +152,7 @@ theorem acked_stay_queued (ru : Rules ι δ) (cfg : Cfg δ)
 theorem rejected_contributes_nothing (ru : Rules ι δ) (r : Req ι δ) (h : resp ru r = .rejected) :
     ackedOps ru r = [] := (rejected_facts ru r h).2
 
-/-- … and (repaired) leaves the log and what readers see exactly as they were -/
+/-- … and leaves the log and what readers see exactly as they were -/
 theorem rejected_leaves_state (ru : Rules ι δ) (cfg : Cfg δ)
     (hproj : ∀ d, cfg.proj (cfg.proj d) = cfg.proj d) (rs : List (Req ι δ)) (r : Req ι δ)
     (h : resp ru r = .rejected) :
@@ -198,9 +199,17 @@ theorem commit_last_acked_wins (ru : Rules ι δ) (cfg : Cfg δ)
   | none => rfl
   | some r => cases r <;> rfl
 
-/-- the two denotations differ in one call only: a request that does not reach `rollback()`
+/-- validation comes first: a batch the library rejects appends **no** record at all — the
+request only creates and drops its writer -/
+theorem rejected_batch_appends_nothing (ru : Rules ι δ) (h : Nat) (docs : List δ)
+    (hne : docs.isEmpty = false) (hr : (firstOps ru docs).2 = true) :
+    denote true ru h (.add docs) = [.lib (.newWriter h), .lib (.dropWriter h)] ∧
+    denote true ru h (.bulk docs) = [.lib (.newWriter h), .lib (.dropWriter h)] := by
+  simp [denote, ingest, hne, hr]
+
+/-- the two denotations differ only on rejected batches: a request the library does not reject
 performs the same library calls in both -/
-theorem denote_eq_of_no_rollback (ru : Rules ι δ) (h : Nat) (r : Req ι δ)
+theorem denote_eq_of_not_rejected (ru : Rules ι δ) (h : Nat) (r : Req ι δ)
     (hr : rollsBack ru r = false) : denote false ru h r = denote true ru h r := by
   cases r <;> simp_all [denote, ingest, rollsBack]
 
@@ -220,8 +229,8 @@ theorem acked_appended (b : Bool) (ru : Rules ι δ) (cfg : Cfg δ)
   simp [flatFold, flatStep, hc, hb]
 
 /-- a rejected request queues none of its own documents: the pending operations afterwards are a
-prefix of those before (all of them — or, in the code as it exists, none: see
-`rollback_drops_everything`) -/
+prefix of those before (all of them — or, with the legacy handler, none: see
+`legacy_rollback_drops_everything`) -/
 theorem rejected_queues_nothing_own (b : Bool) (ru : Rules ι δ) (cfg : Cfg δ)
     (hproj : ∀ d, cfg.proj (cfg.proj d) = cfg.proj d) (rs : List (Req ι δ)) (r : Req ι δ)
     (h : resp ru r = .rejected) :
@@ -265,11 +274,11 @@ theorem uncommitted_invisible (b : Bool) (ru : Rules ι δ) (cfg : Cfg δ)
   rw [a3 i, b3 i, flatRun_eq, flatFold_append, committed_noCommit b ru cfg.proj post _ hpost,
     ← flatRun_eq]
 
-/-! ## the code as it exists -/
+/-! ## the legacy handler (`repaired = false`), fixed in /repo commit 69e89dd -/
 
-/-- the mechanism of the defect, for all inputs: a request that reaches `writer.rollback()`
-leaves **nothing** pending, whatever earlier requests had queued and been acknowledged for -/
-theorem rollback_drops_everything (ru : Rules ι δ) (cfg : Cfg δ)
+/-- the mechanism of the original defect, for all inputs: a request that reached
+`writer.rollback()` left **nothing** pending, whatever earlier requests had queued and been acknowledged for -/
+theorem legacy_rollback_drops_everything (ru : Rules ι δ) (cfg : Cfg δ)
     (hproj : ∀ d, cfg.proj (cfg.proj d) = cfg.proj d) (rs : List (Req ι δ)) (r : Req ι δ)
     (h : rollsBack ru r = true) :
     (mechRun false ru cfg (rs ++ [r])).log.pending = [] := by
@@ -278,10 +287,11 @@ theorem rollback_drops_everything (ru : Rules ι δ) (cfg : Cfg δ)
   rw [a1, flatRun_eq, flatFold_append]
   simp [flatFold, flatStep, hc, h]
 
-/-- **acked_stay_queued_partial** (code as it exists): the statement of `acked_stay_queued` under
-the hypothesis that no request reaches `rollback()` while operations of earlier requests are
-pending.  Missing: exactly those sequences — see `acked_dropped_witness`. -/
-theorem acked_stay_queued_partial (ru : Rules ι δ) (cfg : Cfg δ)
+/-- legacy handler: the statement of `acked_stay_queued` held only under the hypothesis that no
+request reaches `rollback()` while operations of earlier requests are pending.  Missing: exactly
+those sequences — see `legacy_acked_dropped_witness`.  (For the code as it exists the hypothesis
+is gone: `acked_stay_queued`.) -/
+theorem legacy_acked_stay_queued_partial (ru : Rules ι δ) (cfg : Cfg δ)
     (hproj : ∀ d, cfg.proj (cfg.proj d) = cfg.proj d) (pre post : List (Req ι δ))
     (hsafe : noLateRollback ru [] (pre ++ post) = true)
     (hpre : endsWithCommit pre) (hpost : noCommit post) :
@@ -295,8 +305,8 @@ theorem acked_stay_queued_partial (ru : Rules ι δ) (cfg : Cfg δ)
   rw [h1, e, ← g1]
   exact (acked_stay_queued ru cfg hproj pre post hpre hpost).1
 
-/-- **commit_applies_in_order_partial** (code as it exists), same hypothesis -/
-theorem commit_applies_in_order_partial (ru : Rules ι δ) (cfg : Cfg δ)
+/-- legacy handler, same hypothesis (code as it exists: `commit_applies_in_order`) -/
+theorem legacy_commit_applies_in_order_partial (ru : Rules ι δ) (cfg : Cfg δ)
     (hproj : ∀ d, cfg.proj (cfg.proj d) = cfg.proj d) (rs : List (Req ι δ))
     (hsafe : noLateRollback ru [] (rs ++ [.commit]) = true) :
     (mechRun false ru cfg (rs ++ [.commit])).log.pending = [] ∧
@@ -319,11 +329,11 @@ def ruN : Rules Nat (Nat × Nat) :=
 
 def cfgN : Cfg (Nat × Nat) := { proj := id, safe := true, reingestOk := fun _ => true }
 
-/-- **negative witness** (code as it exists): `/add` of a valid document is acknowledged
+/-- **negative witness** (legacy handler): `/add` of a valid document is acknowledged
 (`queued 1`), a following `/add` whose only document has no id is rejected, `/commit` succeeds —
 and a reader sees nothing: the acknowledged document is gone, although the fold of the
-acknowledged operations holds it.  With the request-local rollback it is there. -/
-theorem acked_dropped_witness :
+acknowledged operations holds it.  With the code as it exists it is there. -/
+theorem legacy_acked_dropped_witness :
     resp ruN (.add [(1, 10)] : Req Nat (Nat × Nat)) = .queued 1 ∧
     resp ruN (.add [(0, 0)] : Req Nat (Nat × Nat)) = .rejected ∧
     abs (mechRun false ruN cfgN [.add [(1, 10)], .add [(0, 0)], .commit]).segs = [] ∧
@@ -333,8 +343,9 @@ theorem acked_dropped_witness :
   decide
 
 /-- the same through `/bulk`, with a deletion among the dropped operations and a valid document
-of the failing batch itself (queued before the failure, rolled back in both denotations) -/
-theorem acked_dropped_witness_bulk :
+of the failing batch itself (legacy: queued before the failure, then rolled back with everything
+else; code as it exists: never appended) -/
+theorem legacy_acked_dropped_witness_bulk :
     abs (mechRun false ruN cfgN
       [.add [(1, 10)], .commit, .delete [1], .bulk [(2, 20), (0, 0)], .add [(3, 30)], .commit]).segs
       = [(1, (1, 10)), (3, (3, 30))] ∧
@@ -357,7 +368,7 @@ example : abs (mechRun false ruN cfgN
      .bulk [(2, 20), (0, 0)], .add [(1, 11), (4, 40)], .compact, .commit]).segs
     = [(4, (4, 40)), (1, (1, 11))] := by decide
 
-/-- non-vacuity of `acked_stay_queued` (repaired): acknowledged adds and deletes of three requests
+/-- non-vacuity of `acked_stay_queued`: acknowledged adds and deletes of three requests
 since the last commit, with rejected requests in between, are all pending, in order -/
 example : (mechRun true ruN cfgN
     ([Req.add [(5, 50)], .commit] ++
